@@ -276,6 +276,18 @@ def classify(prop, pipeline, why):
     return {"class": cls, "nodes": "+".join(langs), "pipeline": pipeline}
 
 
+def add_unset_steps(pkg, proto, r):
+    """A record all of whose fields may be unset (its NDJSON form then has no members), as a value, inside an optional,
+    as a union case and as a vector element."""
+    fn0 = sorted(pkg.files)[0]
+    pkg.files[fn0].append(M.Record("SteerUnset", (), [("first", M.Opt(M.Prim("int32"))), ("second", M.Opt(M.Prim("string"))),
+                                                    ("third", M.Union((("uint16", M.Prim("uint16")), ("bool", M.Prim("bool"))), True))]))
+    proto.steps.append(("steerunset", M.Named("SteerUnset"), r.chance(0.5)))
+    proto.steps.append(("steerunsetopt", M.Opt(M.Named("SteerUnset")), r.chance(0.5)))
+    proto.steps.append(("steerunsetuni", M.Union((("SteerUnset", M.Named("SteerUnset")), ("string", M.Prim("string"))), False), True))
+    proto.steps.append(("steerunsetvec", M.Vec(M.Named("SteerUnset")), False))
+
+
 def steer(pkg, rng, with_dates):
     """Coverage steering for the JSON properties: every model gets the union shapes the property names —
     a nullable union that needs tags, unions whose cases share a JSON representation (flags/enum next to
@@ -288,6 +300,7 @@ def steer(pkg, rng, with_dates):
     names = {d.name for d in pkg.defs()}
     if "SteerFlags" in names:
         return
+    add_unset_steps(pkg, first, rng.fork("unset"))
     pkg.files[fn].append(M.Enum("SteerFlags", rng.choice([None, "uint8", "uint64"]), [("fa", 1), ("fb", 2), ("fc", 8), ("fab", 3), ("fde", 48)], flags=True))   # single bits, a composite of two of them, a symbol of two bits that have no symbols of their own
     pkg.files[fn].append(M.Enum("SteerEnum", rng.choice([None, "int16"]), [("ea", 0), ("eb", 5), ("ec", 100)]))
     pkg.files[fn].append(M.Record("SteerRec", (), [("must", M.Prim("int32")), ("maybe", M.Opt(M.Prim("int32"))), ("extra", M.Opt(M.Prim("string"))),
@@ -356,6 +369,11 @@ def model_task(task, ybin, root, prop):
             at = 1 if protos0[0].steps and protos0[0].steps[0][0] == sw.PAD_STEP else 0
             protos0[0].steps.insert(at, ("steeri64", M.Prim("int64"), True))
             protos0[0].steps.insert(at, ("steeru64", M.Prim("uint64"), True))
+            if prop == "C01":
+                add_unset_steps(pkg, protos0[0], pr_)
+            # arrays of the widest integers, filled (below) with single high bits: the values at which a varint gets one byte longer
+            protos0[0].steps.append(("steerarru64", M.Arr(M.Prim(pr_.choice(["uint64", "uint64", "size"])), pr_.choice([None, 1, 2])), pr_.chance(0.3)))
+            protos0[0].steps.append(("steerarri64", M.Arr(M.Prim("int64"), pr_.choice([None, 1, ((None, 4),), ((None, 2), (None, 3))])), pr_.chance(0.3)))
             # one generic record, several instantiations with different layouts, as array elements, vector elements and plain values
             pkg.files[fn0].append(M.Record("SteerPair", ("T", "U"), [("first", M.TParam("T")), ("second", M.TParam("U"))]))
             inst = lambda a, b: M.Named("SteerPair", (M.Prim(a), M.Prim(b)))
@@ -419,6 +437,28 @@ def model_task(task, ybin, root, prop):
                             if lo_ <= c_ <= hi_:
                                 head_.append(c_)
                         vals[k_] = head_ + [vg_.gen_int(st_.name) for _ in range(r.randint(10, 40))]
+                    if sn_ in ("steerarru64", "steerarri64") and r.fork("bigints", sn_).chance(0.7):
+                        ir_ = r.fork("arrints", sn_)
+                        lo_, hi_ = M.INT_RANGE[st_.inner.name]
+
+                        def special_(ir_=ir_, lo_=lo_, hi_=hi_):
+                            while True:
+                                c_ = (1 << ir_.randint(6, 64)) + ir_.choice([-1, 0, 0, 0, 1, 2, ir_.randint(2, 300), ir_.randint(2, 30000)])
+                                if ir_.chance(0.4):
+                                    c_ = -c_ - ir_.choice([0, 1])
+                                if lo_ <= c_ <= hi_:
+                                    return c_
+
+                        def fill_(v_):
+                            return ("a", v_[1], [special_() for _ in v_[2]])
+                        if ss_:
+                            vals[k_] = [fill_(v_) for v_ in vals[k_]]
+                        else:
+                            if not vals[k_][2] and st_.dims in (None, 1):
+                                n_ = ir_.randint(8, 40)
+                                vals[k_] = ("a", (n_,), [0] * n_)
+                            vals[k_] = fill_(vals[k_])
+                        cx.bump("arrays_of_single_high_bit_integers")
                 long_stream = False
                 has_arr = any(n in ("steerarr", "steerfix") for n, _, _ in proto.steps)
                 if prop in ("C01", "C03") and r.chance(0.4 if has_arr else 0.15):
